@@ -25,7 +25,7 @@ func init() {
 	register(&Property{
 		ID:      "C03",
 		NeedSSA: true,
-		Decided: "Narrow structural necessary conditions only: (nullwidth) every width-specific null scanner nullIndex<T> of the typed ingestion path scans elements of the width of T (it calls the kernel named after 8·sizeof(T) or the generic scanner instantiated with T), in every build configuration; (nullkinds) the reflection path decides `null` for pointer-like kinds (pointer, map, slice, interface) by IsNil, like the typed path's pointer test, never by length or zero-ness; (siblings) the entry points that shred through a shared implementation hand it the same set of level fields (composite literals passed to one callee set the same keys); (mapscratch) the map re-assembly clears its scratch element after each entry; (dispatch) the node-shape dispatchers of the typed, reflection and row paths test the same predicates (optional, repeated, list, map) in the same order.",
+		Decided: "Narrow structural necessary conditions only: (nullwidth) every width-specific null scanner nullIndex<T> of the typed ingestion path scans elements of the width of T (it calls the kernel named after 8·sizeof(T) or the generic scanner instantiated with T), in every build configuration; (nullkinds) the reflection path decides `null` for pointer-like kinds (pointer, map, slice, interface) by IsNil, like the typed path's pointer test, never by length or zero-ness; (siblings) the entry points that shred through a shared implementation hand it the same set of level fields (composite literals passed to one callee set the same keys); (mapscratch) the map re-assembly clears its scratch element after each entry; (dispatch) the node-shape dispatchers of the typed, reflection and row paths test the same predicates (optional, repeated, list, map) in the same order. (appendalias) inside a loop, a slice built by appending to a base slice that is the same on every iteration (a parameter not always passed clipped, a field, a value computed before the loop) is not retained unless the base's capacity was clipped: retained slices would share the base's spare capacity.",
 		NotDecided: "the level values themselves, null-bitmap scanning, batch boundaries, struct field offsets of embedded structs, ordering of map keys — value-dependent.",
 		Assumptions: []string{"see DESIGN.md §4 C03"},
 		Run:         runC03,
@@ -41,15 +41,15 @@ func init() {
 	register(&Property{
 		ID:      "C10",
 		NeedSSA: true,
-		Decided: "Narrow structural necessary conditions only: (swap) Swap of the nullable and repeated column-buffer wrappers exchanges every per-row array it keeps on every path (no early exit that swaps some arrays and not others), and Buffer/GenericBuffer swap all columns, not only the sorting columns; (direction) the descending wrapper compares (j, i), wraps exactly the columns declared descending, and the null ordering follows NullsFirst; (rowpos) the row comparator uses row positions as column indexes only when no leaf of the schema is repeated (the test is not nested under the sorting-column test); (metadata) recorded sorting columns are the declared ones (C05.sorting); (close) SortingWriter.Close propagates the errors of the run merge and the output writer (C14.errflow scope).",
-		NotDecided: "that the result is an ordered permutation; offset bookkeeping of repeated columns when rows are reordered; placement of nulls across sort runs.",
+		Decided: "Narrow structural necessary conditions only: (swap) Swap of the nullable and repeated column-buffer wrappers exchanges every per-row array it keeps on every path (no early exit that swaps some arrays and not others), and Buffer/GenericBuffer swap all columns, not only the sorting columns; (direction) the descending wrapper compares (j, i), wraps exactly the columns declared descending, and the null ordering follows NullsFirst; (rowpos) the row comparator uses row positions as column indexes only when no leaf of the schema is repeated (the test is not nested under the sorting-column test); (metadata) recorded sorting columns are the declared ones (C05.sorting); (close) SortingWriter.Close propagates the errors of the run merge and the output writer (C14.errflow scope). (direction, cont.) the null ordering handed to a sorting column of a Buffer depends on both NullsFirst() and Descending(), because the descending wrapper inverts the whole comparison including the placement of nulls.",
+		NotDecided: "that the result is an ordered permutation; offset bookkeeping of repeated columns when rows are reordered.",
 		Assumptions: []string{"see DESIGN.md §4 C10"},
 		Run:         runC10,
 	})
 	register(&Property{
 		ID:      "C12",
 		NeedSSA: true,
-		Decided: "Narrow structural necessary conditions only: (polarity) the order-sensitive schema comparison recurses with the order-sensitive comparison and the order-insensitive one with itself; (insert) copyRows consults the schema comparison before it takes any fast path that bypasses conversion (RowWriterTo / RowReaderFrom), and inserts the conversion on the unequal edge; (adjacent) the choice of a sibling column to mirror for an added column compares repetition depth as well as the parent path; (errors) errors of Convert and of conversions are not dropped or swallowed; (convertvalue) ConvertValue of every physical type dispatches over every source kind or fails loudly; (marker) converted row groups never take chunk-level fast paths (C11.marker).",
+		Decided: "Narrow structural necessary conditions only: (polarity) the order-sensitive schema comparison recurses with the order-sensitive comparison and the order-insensitive one with itself; (insert) copyRows consults the schema comparison before it takes any fast path that bypasses conversion (RowWriterTo / RowReaderFrom), and inserts the conversion on the unequal edge; (adjacent) the choice of a sibling column to mirror for an added column compares repetition depth as well as the parent path; (errors) errors of Convert and of conversions are not dropped or swallowed; (convertvalue) ConvertValue of every physical type dispatches over every source kind or fails loudly; (marker) converted row groups never take chunk-level fast paths (C11.marker). (wrapper) every Page implementation that wraps another Page returns a value of its own type from Slice.",
 		NotDecided: "level remapping and value equality through a conversion; behaviour on incompatible targets beyond the presence of an error path.",
 		Assumptions: []string{"see DESIGN.md §4 C12"},
 		Run:         runC12,
